@@ -134,7 +134,14 @@ impl SymbolsExportsModule {
         files: &mut R,
         visited: &mut Vec<BffFileName>,
     ) -> Option<Rc<SymbolExport>> {
-        let known = self.named_values.get(name).cloned().or_else(|| {
+        // an explicit export of the module (also `export { X } from "./b"`, whose meaning is not known yet) takes
+        // precedence over the names that `export *` brings
+        let explicit = self
+            .named_values
+            .get(name)
+            .cloned()
+            .or_else(|| self.named_unknown.get(name).cloned());
+        explicit.or_else(|| {
             for it in &self.extends {
                 if visited.contains(it) {
                     continue;
@@ -147,9 +154,7 @@ impl SymbolsExportsModule {
                 }
             }
             None
-        });
-
-        known.or_else(|| self.named_unknown.get(name).cloned())
+        })
     }
 
     pub fn insert_type(&mut self, name: String, export: Rc<SymbolExport>) {
@@ -182,7 +187,14 @@ impl SymbolsExportsModule {
         files: &mut R,
         visited: &mut Vec<BffFileName>,
     ) -> Option<Rc<SymbolExport>> {
-        let known = self.named_types.get(name).cloned().or_else(|| {
+        // an explicit export of the module (also `export { X } from "./b"`, whose meaning is not known yet) takes
+        // precedence over the names that `export *` brings
+        let explicit = self
+            .named_types
+            .get(name)
+            .cloned()
+            .or_else(|| self.named_unknown.get(name).cloned());
+        explicit.or_else(|| {
             for it in &self.extends {
                 if visited.contains(it) {
                     continue;
@@ -195,9 +207,7 @@ impl SymbolsExportsModule {
                 }
             }
             None
-        });
-
-        known.or_else(|| self.named_unknown.get(name).cloned())
+        })
     }
 
     pub fn extend(&mut self, other: BffFileName) {
